@@ -188,11 +188,10 @@ func (wb *memWriteBatch) DeleteRange(start, end []byte) {
 		if wb.writer == nil {
 			wb.writer = wb.db.radixMemI.memkv.Txn(true)
 		}
-		it, err := wb.db.radixMemI.NewIterator()
-		if err != nil {
-			wb.hasErr = err
-			return
-		}
+		// iterate over the view of this batch, so that the keys written earlier in this batch
+		// are removed as well (as a rocksdb write batch does)
+		it := &radixIterator{miTxn: wb.writer.Snapshot()}
+		var err error
 		it.Seek(start)
 		for ; it.Valid(); it.Next() {
 			k := it.Key()
@@ -277,7 +276,12 @@ func (wb *memWriteBatch) Merge(key []byte, value []byte) {
 		}
 		var err error
 		if oldV == nil {
-			oldV, err = wb.db.GetBytesNoLock(key)
+			// read through this batch: the key may have been deleted earlier in this batch
+			var obj interface{}
+			_, obj, err = wb.writer.First(key)
+			if err == nil && obj != nil {
+				_, oldV, err = memdb.KVFromObject(obj)
+			}
 		}
 		cur, err := GetRocksdbUint64(oldV, err)
 		if err != nil {
